@@ -642,7 +642,7 @@ def _native_crosscheck(cases):
             f.write(NATIVE)
         env = dict(os.environ)
         env.pop('PYTHONPATH', None)
-        r = subprocess.run(['/venv/bin/python', '-W', 'ignore', os.path.join(d, 'native.py'), os.path.join(d, 'cases.json'), '/repo'],
+        r = subprocess.run(['/venv/bin/python', '-W', 'ignore', os.path.join(d, 'native.py'), os.path.join(d, 'cases.json'), os.environ.get('VERIF_REPO', '/repo')],
                            capture_output=True, text=True, env=env, timeout=600)
         if r.returncode != 0:
             print(r.stderr[-2000:], file=sys.stderr)
